@@ -353,7 +353,15 @@ func BuildCte(query *Query, expr *sqlparser.With) error {
 	}
 	for _, cte := range expr.CTEs {
 		copy := *cte
+		evaluating := false
 		query.data[copy.ID.String()] = CteEvaluation(func() (any, error) {
+			// a CTE that reads itself, directly or through another CTE,
+			// would recurse until the stack overflows
+			if evaluating {
+				return nil, EXPECTATION_FAILED.Extend(fmt.Sprintf("recursive reference to `%s`", copy.ID.String()))
+			}
+			evaluating = true
+			defer func() { evaluating = false }()
 			query, err := Prepare(query.data, copy.Subquery, query.options)
 			if err != nil {
 				return nil, err
